@@ -76,8 +76,35 @@ class CaseResult:
         self.ok, self.kind, self.msg, self.env, self.outputs = ok, kind, msg, env, outputs
 
 
+def snapshot(t):
+    return (t.getRankIds(), sorted((hf.norm(c), repr(v)) for c, v in t.points()))
+
+
+def names_check(spec, env, in_objs, before):
+    """C07 oracle on the final global namespace"""
+    import re
+    names = "|".join(sorted(map(re.escape, spec["decl"]), key=len, reverse=True))
+    pat = re.compile(r"^(%s)_([A-Za-z0-9]*?)(_flat)?$" % names)
+    for var, obj in list(env.items()):
+        if not isinstance(obj, hf.Tensor):
+            continue
+        m = pat.match(var)
+        if not m:
+            continue
+        if "".join(obj.getRankIds()) != m.group(2):
+            return "name-lie", "variable %s holds a tensor with rank ids %r" % (var, obj.getRankIds())
+    for t, obj in in_objs.items():
+        var = B.tensor_var(spec, t)
+        if snapshot(obj) != before[t]:
+            return "input-modified", "input tensor object %s changed: now %r, was %r" % (var, snapshot(obj), before[t])
+        cur = env.get(var)
+        if not isinstance(cur, hf.Tensor) or snapshot(cur) != before[t]:
+            return "input-modified", "input variable %s no longer holds the data it held: %r" % (var, cur)
+    return None
+
+
 def run_case(code, spec, extents, ins, sizes=None, policy="M", extra_env=None, check_names=True,
-             check_extent=True, outputs_only_last=False, keep_env=False):
+             check_extent=True, outputs_only_last=False, keep_env=False, check_values=True, c07=False):
     """Execute compiled emitted code on one input; compare every Einsum output with dense evaluation."""
     hf.reset_state(policy)
     env = base_env(spec, extents, sizes)
@@ -88,14 +115,19 @@ def run_case(code, spec, extents, ins, sizes=None, policy="M", extra_env=None, c
         obj = make_input_tensor(spec, t, data)
         in_objs[t] = obj
         env[B.tensor_var(spec, t)] = obj
+    before = {t: snapshot(o) for t, o in in_objs.items()} if c07 else None
     try:
         exec(code, env)
     except Exception as e:
         tb = traceback.extract_tb(e.__traceback__)
         line = next((f.lineno for f in reversed(tb) if f.filename == "<emitted>"), None)
         return CaseResult(False, "exception", "%s: %s (emitted line %s)" % (type(e).__name__, e, line))
+    if c07:
+        bad = names_check(spec, env, in_objs, before)
+        if bad:
+            return CaseResult(False, bad[0], bad[1])
     scal = {s: Poly.var(s) for s in B.scalar_names(spec)}
-    expect = dense.eval_cascade(spec["exprs"], ins, extents, scal)
+    expect = dense.eval_cascade(spec["exprs"], ins, extents, scal) if check_values else None
     outs = B.out_names(spec)
     if outputs_only_last:
         outs = outs[-1:]
@@ -112,7 +144,7 @@ def run_case(code, spec, extents, ins, sizes=None, policy="M", extra_env=None, c
             return CaseResult(False, "rank-ids", "%s has rank ids %r, expected a permutation of %r" % (var, obj.getRankIds(), ro))
         got = tensor_to_decl(spec, o, obj)
         got_all[o] = got
-        if got != expect[o]:
+        if check_values and got != expect[o]:
             return CaseResult(False, "wrong-value", "%s = %s, Einsum defines %s" % (var, fmt(got), fmt(expect[o])))
         if check_extent:
             decl = spec["decl"][o]
